@@ -236,7 +236,7 @@ Lemma solve_lp_nophase1 minimize fuel c A b :
   solve_lp 0 minimize fuel c A b =
   let '(st2, iters2, T2, basis2, piv2) :=
       phase2 0 fuel 0 (init_tableau minimize c A b) (seq (length c) (length b)) [] in
-  extract T2 basis2 (length c) st2 iters2 minimize piv2.
+  extract T2 basis2 (length c) st2 iters2 c piv2.
 Proof.
   intros Hvalid Hb. unfold solve_lp. cbv zeta. rewrite (no_phase1 minimize c A b Hvalid Hb). reflexivity.
 Qed.
@@ -303,8 +303,7 @@ Proof.
   split.
   - split; [exact Hfeas|]. intros y Hy. specialize (Hopt y Hy). unfold w in Hopt.
     rewrite !weights_dot in Hopt. destruct minimize; lra.
-  - rewrite Qred_correct. unfold w in Hobj. rewrite weights_dot in Hobj.
-    destruct minimize; lra.
+  - apply Qred_correct.
 Qed.
 
 (* whatever the status (OPTIMAL, UNBOUNDED, MAX_ITER), the point returned from phase 2 is feasible and the reported
@@ -347,6 +346,5 @@ Proof.
     { rewrite <- (get_app_r x). rewrite <- Hv. apply get_nonneg. exact Hvn. }
     lra. }
   split; [exact Hfeas|].
-  rewrite Qred_correct. unfold w in Hobj. rewrite weights_dot in Hobj.
-  destruct minimize; lra.
+  apply Qred_correct.
 Qed.
